@@ -5,7 +5,8 @@
 import sys, os, json, subprocess, shutil
 ROOT = os.path.dirname(os.path.dirname(os.path.abspath(__file__)))
 pid, name = sys.argv[1], sys.argv[2]
-wt, out = "/tmp/seed-%s" % pid, "/tmp/seedout-%s" % pid
+sfx = os.environ.get("SEED_SUFFIX", "")
+wt, out = "/tmp/seed%s-%s" % (sfx, pid), "/tmp/seedout%s-%s" % (sfx, pid)
 meta = json.load(open(os.path.join(out, "meta.json")))
 env = dict(os.environ, GOFLAGS="-mod=mod", GOPROXY="off", CGO_ENABLED=os.environ.get("CGO_ENABLED", "0"))
 def sh(cmd):
